@@ -12,11 +12,11 @@ import (
 // balances produced by earlier ones). The product is the JSON workload only; every judged execution is a
 // replay of that JSON on fresh instances.
 type Gen struct {
-	C   *Chain
-	R   *sim.Rng
-	W   Workload
-	Res [][]TxRes
-	cur int
+	C     *Chain
+	R     *sim.Rng
+	W     Workload
+	Res   [][]TxRes
+	cur   int
 	Trace func(g *Gen)
 }
 
